@@ -106,6 +106,11 @@ def run(chk, binary):
         Xc = X
         if cnt:
             Xc = X[:2] + cnt + X[2:] if X.startswith('"') else cnt + X
+            if cls in ("x", "d", "dd", "r", "~", "put", "case") and rng.random() < 0.5:
+                # the change has a count of its own: the count given to '.' replaces it
+                own = rng.choice(["2", "3", "4"])
+                X = X[:2] + own + X[2:] if X.startswith('"') else own + X
+                cls = cls + "+own-count"
         dot_keys = pre + [X] + btw + [cnt + "."] * chain
         typed_keys = pre + [X] + btw + [Xc] * chain
         reqs.append({"op": "keys", "text": text, "cursor": start, "keys": dot_keys})
